@@ -113,6 +113,7 @@ def run(chk, repo: Repo):
         _r2_experimental(chk, repo, ci, se, recorded)
         _r4(chk, repo, ci)
         _r6(chk, repo, ci)
+    _r2_solvers(chk, repo)
     _r3_experimental(chk, repo, base, recorded)
     _r5(chk, repo, base, samplers)
     _r7(chk, repo, base)
@@ -255,6 +256,44 @@ def _r2_experimental(chk, repo, ci, se, recorded):
     else:
         chk.ok("C14-R2", inst, f"{ci.module.rel}:{ci.node.lineno}",
                f"{len(fns)} functions in the step/tune closure, {nops} in-place operations, none may reach {sorted('self.'+r for r in recorded)}")
+
+
+_R2_SOLVER_CONTROL = """
+class S:
+    def solve(self):
+        x = self.x0.to_numpy()
+        y = self.b.copy()
+        x += 1
+        y += 1
+        return x
+"""
+
+
+def _r2_solvers(chk, repo):
+    """The steps hand their state (current_point, which before the first transition IS the configured initial_point and after it the array recorded in
+    the chain) to the solvers of cuqi/solver as start vector / right-hand side. No in-place write of solver code may reach an object that existed
+    before the call (fields stored by the constructor, parameters): the iterate must live on a copy."""
+    ctl = ast.parse(_R2_SOLVER_CONTROL).body[0].body[0]
+    got = [r for r, *_ in FnAlias(ctl).mutated_roots()]
+    if got != ["self.x0"]:
+        raise AnchorError(f"C14-R2 solver positive control: expected exactly the write through the view of self.x0, got {got}")
+    nfun = nops = 0
+    for m in repo.modules.values():
+        if not m.rel.startswith("cuqi/solver/"):
+            continue
+        repo.consulted[m.rel] = m.digest
+        units = [(ci, fn) for ci in m.classes.values() for kind, name, fn in ci.all_functions() if name != "__init__"] + [(None, fn) for fn in m.functions.values()]
+        for ci, fn in units:
+            nfun += 1
+            fa = FnAlias(fn, method_resolver=(lambda nm, _ci=ci: (_ci.lookup(nm) or (None, None))[1]) if ci is not None else None)
+            nops += len(fa.inplace_ops())
+            for root, node, a, kind in fa.mutated_roots():
+                chk.fail("C14-R2", f"{m.rel}:{(ci.name + '.') if ci else ''}{fn.name}/{root}", site(repo, a),
+                         f"in-place {kind} `{unparse(a)[:70]}` reaches `{root}`, an array the caller handed to the solver (samplers pass their current_point, "
+                         f"which is the configured initial_point before the first transition and a recorded chain state afterwards): the iterate must be a copy", a)
+    if nfun < 10:
+        raise AnchorError(f"cuqi/solver: {nfun} functions analysed, at least 10 expected")
+    chk.ok("C14-R2", "cuqi/solver/*", "cuqi/solver/_solver.py:1", f"{nfun} solver functions, {nops} in-place operations, none reaches a constructor-stored field or a parameter")
 
 
 # ------------------------------------------------------------------------------------------------ R3
